@@ -5,6 +5,7 @@ markers, limits, URI schemes, tag classes, token names, entity tables; lookup pr
 strings).  Not proved: equality of the two token streams - that is checked by differential
 execution on table-driven and generated inputs.
 """
+import headfrag
 import tokprops
 import vlib
 
@@ -14,6 +15,7 @@ def run(tier, seed):
     c.prove("C04.v")
     tokprops.run_stream(c, tier, seed, ("agree",),
                         "non-trivial = input contains markup characters or produced a non-Text token; distinct by (text, context, skip)")
+    headfrag.run(c, tier, seed, ("pyc",))
     c.assumptions += ["table generator: Python values by importing /repo's modules, C values by parsing #define / array initialisers (fail-closed)",
                       "token streams are compared by differential execution (testing), not proved equal",
                       "heading level: Python's float log2 formula vs the C shift loop is exercised by the heading inputs only"]
